@@ -4,7 +4,8 @@
     SourceMap::applyToAll, HDF5File::appendTracks); DESIGN.md 5/C15. *)
 From Coq Require Import List ZArith QArith Qcanon Bool.
 From Inovesa Require Import Base.FieldKit Base.Float32 Gen.Gen_Coeffs Model.Kick Model.Tracking
-  Proofs.WeightsP Proofs.KickP Proofs.TrackingP Proofs.TrackBlobP.
+  Proofs.WeightsP Proofs.KickP Proofs.TrackingP Proofs.TrackBlobP
+  Model.StepKinds Model.TrackX Gen.Gen_Track Model.TrackGen Proofs.TrackGenP Proofs.TrackDynP.
 Import ListNotations.
 Local Open Scope Z_scope.
 
@@ -271,3 +272,147 @@ Example C15_stochastic_hypotheses_satisfiable :
   E2 xi = 0%Qc /\ E2 (fun w => xi w * xi w)%Qc = ((1 + 1) * Q2Qc (1 # 2) / (1 * 1))%Qc /\
   E2 (fun w => y w * xi w)%Qc = (E2 y * E2 xi)%Qc.
 Proof. exact stochastic_hypotheses_satisfiable. Qed.
+
+(** ** the same statements about the code of THIS run: definitions generated from the C++ source
+    (Gen/Gen_Track.v by translate/track2coq.py; vocabulary Model/TrackX.v, assembly Model/TrackGen.v) *)
+
+(** SourceMap::applyTo with every map's body as generated - kicks in both directions, identity, the
+    switch of FokkerPlanckMap::applyTo for ANY value of _fptrack - over any sequence: every map of the
+    sequence is executed (no coordinate ever becomes NaN or infinite) and the particle is inside after
+    each.  No hypothesis on offsets, tables, grid data (all-zero stencil rows, zero charge), decrement,
+    zero bins or drawn numbers. *)
+Theorem C15_generated_tracked_stay_inside :
+  forall n ops k p, 2 <= n < 2 ^ 32 -> inside n p ->
+    Forall (xinside n) (gen_trajectory n ops k p) /\ length (gen_trajectory n ops k p) = length ops.
+Proof. exact gen_tracked_stay_inside. Qed.
+Print Assumptions C15_generated_tracked_stay_inside.
+
+(** the clamp of tracking model 2 exactly as nested in the source, `std::max(1, std::min(v, n-1))`,
+    maps EVERY float into [1, n-1]: NaN (0/0: zero charge, zero moment) and +-infinity (x/0) included.
+    The statement is about the generated nest: it fails when min and max are nested the other way
+    round or the arguments of the outer std::max are exchanged. *)
+Theorem C15_fp2_clamp_maps_every_float_into_grid :
+  forall n v, 2 <= n < 2 ^ 32 -> xin_clamp n (gen_fp_approximation2_clamp n n v).
+Proof. exact gen_fp2_clamp_any. Qed.
+Print Assumptions C15_fp2_clamp_maps_every_float_into_grid.
+
+(** tracking model 2 as a whole, whatever the charge under the particle *)
+Theorem C15_fp2_zero_charge_stays_inside :
+  forall n ip H D e1 zb0 zb1 noise x y, 2 <= n < 2 ^ 32 ->
+    gen_moves_y n x (gen_fp_approximation2 n n ip H D e1 zb0 zb1 noise x y).
+Proof. exact gen_fp2_moves. Qed.
+Print Assumptions C15_fp2_zero_charge_stays_inside.
+
+(** the float division `offset /= charge`: a quotient, NaN for 0/0, an infinity of the dividend's sign for x/0 *)
+Theorem C15_fp2_division_cases :
+  forall a b,
+    (b <> 0%Qc -> xdivq a b = XF (a / b)%Qc) /\
+    (b = 0%Qc -> a = 0%Qc -> xdivq a b = XNaN) /\
+    (b = 0%Qc -> (0 < a)%Qc -> xdivq a b = XPInf) /\
+    (b = 0%Qc -> (a < 0)%Qc -> xdivq a b = XMInf).
+Proof. exact xdivq_cases. Qed.
+Print Assumptions C15_fp2_division_cases.
+
+(** why the order matters: `std::min(std::max(v, 1), n-1)` is the same function on finite values
+    and hands NaN through *)
+Theorem C15_other_clamp_order_same_on_finite :
+  forall n v, 2 <= n -> clamp_minmax n (XF v) = XF (clamp_grid n v).
+Proof. exact clamp_minmax_finite. Qed.
+Print Assumptions C15_other_clamp_order_same_on_finite.
+
+Theorem C15_other_clamp_order_propagates_nan : forall n, clamp_minmax n XNaN = XNaN.
+Proof. exact clamp_minmax_nan. Qed.
+Print Assumptions C15_other_clamp_order_propagates_nan.
+
+(** non-vacuity: a particle on the zeroed top row of the two-sided stencil (n = 8, all weights 0, any
+    grid): charge 0, moment 0, 0/0 = NaN, and the generated code puts the particle on row 1 *)
+Example C15_zero_charge_example :
+  let H := fun _ : Z => (0, 0%Qc) in
+  let D := fun _ : Z => Qcz 5 in
+  (match gen_fp_approximation2 8 8 3 H D 0%Qc 0%Qc 0%Qc 0%Qc (Qcz 3) (Qcz 7) with
+   | (XF x, XF y) => Some (this x, this y) | _ => None end) = Some ((3 # 1)%Q, (1 # 1)%Q)
+  /\ xdivq 0 0 = XNaN.
+Proof. split; vm_compute; reflexivity. Qed.
+
+(** the hand-written model (every theorem above this section) IS the generated code: for a particle
+    inside the grid, each operation of Model/Tracking.v and its generated counterpart are the same
+    function ([op_sizes_ok]: the `unsigned int` index arithmetic of the two approximations does not wrap) *)
+Theorem C15_generated_code_is_the_model :
+  forall n zb0 o k p, 2 <= n < 2 ^ 31 -> inside n p -> op_sizes_ok n o ->
+    gen_applyTo n (gop_of_op zb0 o) k p = xpos_of (applyTo n o k p).
+Proof. exact gen_applyTo_is_model. Qed.
+Print Assumptions C15_generated_code_is_the_model.
+
+(** loading the tracking file (main(): `{grid->x(q), grid->y(p)}`; PhaseSpace::x / y as generated):
+    whatever numbers the file holds and whatever the axes are, the particle starts inside *)
+Theorem C15_loaded_particles_start_inside :
+  forall n a0 d0 a1 d1 c1 c2, 1 <= n -> xinside n (gen_load n a0 d0 a1 d1 c1 c2).
+Proof. exact gen_load_inside. Qed.
+Print Assumptions C15_loaded_particles_start_inside.
+
+(** ... first column through x() on the position axis, second through y() on the energy axis, each the
+    coordinate in cells cut to [0, n-1] *)
+Theorem C15_loading_columns_and_axes :
+  (gen_load_first = (LdX, Col1) /\ gen_load_second = (LdY, Col2)) /\
+  (forall n a0 d0 a1 d1 c, 1 <= n -> d0 <> 0%Qc ->
+     gen_ps_x n n a0 d0 a1 d1 c = XF (std_min (std_max 0 ((c - a0) / d0)) (Qcz (n - 1)))%Qc) /\
+  (forall n a0 d0 a1 d1 c, 1 <= n -> d1 <> 0%Qc ->
+     gen_ps_y n n a0 d0 a1 d1 c = XF (std_min (std_max 0 ((c - a1) / d1)) (Qcz (n - 1)))%Qc).
+Proof. exact (conj gen_load_columns (conj gen_ps_x_value gen_ps_y_value)). Qed.
+Print Assumptions C15_loading_columns_and_axes.
+
+(** HDF5File::appendTracks as generated: the record is (position axis at trunc x, energy axis at trunc y),
+    i.e. the model's [appendTracks] *)
+Theorem C15_generated_appendTracks_is_the_model :
+  forall axq axp ps n, n < 2 ^ 31 -> Forall (inside n) ps ->
+    map (gen_append (fun a => if a =? 0 then axq else axp)) ps = appendTracks axq axp ps.
+Proof. exact gen_append_matches_appendTracks. Qed.
+Print Assumptions C15_generated_appendTracks_is_the_model.
+
+(** ** time-dependent maps: the particle gets the SAME step's kick as the grid *)
+
+(** main(): every `<map>->applyToAll(trackme)` directly follows `<map>->apply()` of the same map *)
+Theorem C15_main_tracks_right_after_apply :
+  track_events_ok gen_track_events = true /\
+  (forall l, track_events_ok l = true -> exists ms, l = flat_map (fun m => [TApply m; TTrack m]) ms).
+Proof. exact (conj gen_track_events_ok track_events_ok_sound). Qed.
+Print Assumptions C15_main_tracks_right_after_apply.
+
+(** DynamicRFKickMap::apply as generated is the transition the queue model of C19 is about *)
+Theorem C15_generated_dynrf_apply_is_the_queue_model :
+  forall sin G kickmap m s,
+    dyn_apply sin G kickmap m gen_dyn_calckick_args gen_dyn_apply s = DynRF.exec (K:=QcF) sin kickmap m DynRF.Apply s.
+Proof. exact gen_dyn_apply_is_exec. Qed.
+Print Assumptions C15_generated_dynrf_apply_is_the_queue_model.
+
+(** `rfm->apply(); rfm->applyToAll(trackme)` over [steps] steps from the map as constructed (queue q0):
+    in step k the particles are moved by KickMap::applyTo reading `_calcKick`(entry k) - and these are,
+    step by step, the offsets KickMap::apply kicked the grid with (log [kicks]); the entries read are
+    the first [steps] entries of the queue, in order *)
+Theorem C15_particles_get_the_same_steps_kick :
+  forall sin G kickmap m n len q0 (g : G) ps steps,
+    (steps <= length q0)%nat ->
+    let run := dyn_track_run sin G kickmap m n gen_dyn_calckick_args gen_dyn_apply steps (DynRF.init (K:=QcF) sin m len q0 g, ps) in
+    let ref := firstn steps (spec_run sin m n (DynRF.static_offsets (K:=QcF) sin m len) q0 ps) in
+    map (obs G) run = ref /\
+    DynRF.kicks (fst (last run (DynRF.init (K:=QcF) sin m len q0 g, ps))) = map fst ref /\
+    DynRF.used (fst (last run (DynRF.init (K:=QcF) sin m len q0 g, ps))) = firstn steps q0 /\
+    DynRF.ub (fst (last run (DynRF.init (K:=QcF) sin m len q0 g, ps))) = false.
+Proof. exact dyn_particles_get_the_grids_kick. Qed.
+Print Assumptions C15_particles_get_the_same_steps_kick.
+
+(** non-vacuity, and what the theorem excludes: linear RF (slope 1/4), queue [(phase 0, ampl 1); (phase 4, ampl 1)],
+    a particle at (3, 4) on an 8-cell grid.  With apply() as in the source the particle of step 0 gets the kick of
+    entry 0 (the grid's): y = 31/8.  A body that applies first and prepares the next kick afterwards
+    ([late_calc_body]) leaves the grid's first kick alone but hands the particle the offsets of entry 1: y = 39/8. *)
+Example C15_same_step_kick_example :
+  let m := DynRF.mkRF (K:=QcF) true (Q2Qc (1 # 4)) 0%Qc 0%Qc 0%Qc 0%Qc 1%Qc 8 (Q2Qc (7 # 2)) 1%Qc 1%Qc 1%Qc (fun x => Qcz x) in
+  let q0 := [(0%Qc, 1%Qc); (Qcz 4, 1%Qc)] in
+  let p := mkpos (Qcz 3) (Qcz 4) in
+  let run body := dyn_track_run (fun x => x) unit (fun _ g => g) m 8 gen_dyn_calckick_args body 1
+                    (DynRF.init (K:=QcF) (fun x => x) m 8 q0 tt, [p]) in
+  let ys body := map (fun sp : qst unit * list pos => map (fun q => this (py q)) (snd sp)) (run body) in
+  let grid_kick body := map (fun sp : qst unit * list pos => map (fun o : list Qc => map this o) (DynRF.kicks (fst sp))) (run body) in
+  ys gen_dyn_apply = [[(31 # 8)%Q]] /\ ys late_calc_body = [[(39 # 8)%Q]] /\
+  grid_kick gen_dyn_apply = grid_kick late_calc_body.
+Proof. vm_compute. repeat split; reflexivity. Qed.
